@@ -163,7 +163,7 @@ H("fastrace", "collector::id", "c12_encode_shape", ["C12"], sym="trace id (128 b
 H("fastrace", "collector::id", "c12_decode_ascii_le4", ["C12"], sym="every ASCII string of length <= 4", bound="input length <= 4", models=CM)
 H("fastrace", "collector::id", "c12_decode_fields_112", ["C12"], sym="00-H-H-HH with 4 arbitrary ASCII bytes", bound="field lengths 1,1,2", models=CM, cap_s=2400, mem_gb=16, tier="thorough")
 H("fastrace", "collector::id", "c12_decode_fields_222", ["C12"], sym="00-HH-HH-HH with 6 arbitrary ASCII bytes", bound="field lengths 2,2,2", models=CM, cap_s=2400, mem_gb=30, tier="thorough")
-H("fastrace", "collector::id", "c12_decode_one_corrupted_byte", ["C12"], sym="position 0..23 and replacement byte (any ASCII) in a valid 24-byte header with a 17-digit trace id", bound="one corrupted byte in one fixed valid header", models=CM, cap_s=2400, mem_gb=24)
+H("fastrace", "collector::id", "c12_decode_one_corrupted_byte", ["C12"], sym="position 0..23 and replacement byte (any ASCII) in a valid 24-byte header with a 17-digit trace id", bound="one corrupted byte in one fixed valid header", models=CM, cap_s=3000, mem_gb=24, tier="thorough")
 H("fastrace", "collector::id", "c12_id_display", ["C12"], sym="all trace ids and span ids, digit position", bound="all values", models=CM)
 H("fastrace", "collector::id", "c12_id_fromstr_short", ["C12"], sym="every ASCII string of length <= 3", bound="input length <= 3", models=CM)
 
